@@ -1150,7 +1150,7 @@ silent("factory-cache-chain-reordered", ["C01", "C02", "C17"], D,
 fire("computation-resolves-options-first", ["C04", "C08", "C10"], "R-OF", CP,
      "        value = self.evaluatable.evaluate(options)\n\n        if not _EFFECTS_DISABLED(options):\n            self.effect.transform(value, options)",
      "        options = dict(options)\n        value = self.evaluatable.evaluate(options)\n\n        if not _EFFECTS_DISABLED(options):\n            self.effect.transform(value, options)")
-fire("type-handler-strict-flag", ["C03", "C04", "C13"], "R-HK", TV,
+fire("type-handler-strict-flag", ["C03", "C16"], "R-HK", TV,
      "def _empty_handler(request: TypeValidationRequest):\n    return",
      "def _empty_handler(request: TypeValidationRequest):\n    if request.options.get(\"LABREA.TYPES.STRICT\") and not isinstance(request.value, request.type):\n        raise TypeError(request.value)\n    return")
 fire("type-handler-rejects", ["C04", "C13"], "R-HD", TV,
